@@ -1082,7 +1082,21 @@ func main() {
 			for i := range id {
 				id[i] = i
 			}
-			valid = typeCheck(text(s, id)).Err == ""
+			// the observed expressions are compiled by the oracle too (as arguments of fmt.Sprintf): they must be valid Go as well
+			// (e.g. `K + 0.5` for a K that is typed by implicit repetition, `K*K/7` overflowing int are not)
+			use := []string{"func verifShowUse(xs ...interface{}) {}", "func verifShows() {"}
+			for _, e := range s.Ents {
+				if e.Show == "" {
+					continue
+				}
+				x := e.Show
+				if tx, typed := typedShow[x]; typed {
+					x = tx
+				}
+				use = append(use, "\tverifShowUse("+x+")")
+			}
+			use = append(use, "}")
+			valid = typeCheck(text(s, id)+"\n"+strings.Join(use, "\n")).Err == ""
 		}
 		if !valid {
 			rep.Dist("cgroup:no-valid-set-in-30-tries")
